@@ -276,6 +276,9 @@ func main() {
 				r.Sample(map[string]any{"input": in, "result": map[string]any{"LogName": p.LogName, "ClientIP": p.ClientIP, "Policy": p.NamespacePolicy, "ReqUser": p.ReqUser, "ReqHost": p.ReqHost, "TransID": p.TransID, "Version": p.SSHClientVersion.Marshal()}})
 			}
 		}
+		if r.Replay == nil {
+			ring.Stress(r, r.CaseAlways("stress", 0), 8, 2)
+		}
 		r.Floor(int64(r.Pick(20000, 1000000)), 1000)
 	})
 }
